@@ -2,7 +2,7 @@
 """Behaviour-preserving whole-tree twins of /repo, to look for false alarms of the checks.
 
 usage: twins_auto.py <transform> <scratch-dir> [--only <path-substring>]
-  transform: unparse | rename | flipif | rettemp | all
+  transform: unparse | rename | flipif | rettemp | all | splitand | elseafter | argtemps
 Creates a git worktree of /repo's HEAD at <scratch-dir> (must not exist, outside /repo and /verif), rewrites every
 non-test module under pyteal/ with the transform, and prints the files changed.  The caller runs the checks with
 `--root <scratch-dir>` (and the test suite, to confirm the twin really preserves behaviour) and removes the worktree.
@@ -110,8 +110,60 @@ class RetTemp(ast.NodeTransformer):
         return node
 
 
-def has_generator_or_ret_conflict(tree):
-    return False
+class SplitAnd(ast.NodeTransformer):
+    """`if a and b: X` (no else) -> `if a: if b: X`"""
+
+    def visit_If(self, node):
+        self.generic_visit(node)
+        if not node.orelse and isinstance(node.test, ast.BoolOp) and isinstance(node.test.op, ast.And) and len(node.test.values) == 2:
+            inner = ast.If(test=node.test.values[1], body=node.body, orelse=[])
+            return ast.If(test=node.test.values[0], body=[inner], orelse=[])
+        return node
+
+
+class ElseAfterReturn(ast.NodeTransformer):
+    """`if c: ...return/raise` followed by the rest of the block -> the rest moves into an else branch"""
+
+    def _fix(self, body):
+        for i, st in enumerate(body):
+            if isinstance(st, ast.If) and not st.orelse and st.body and isinstance(st.body[-1], (ast.Return, ast.Raise)) and i + 1 < len(body):
+                rest = self._fix(body[i + 1:])
+                return body[:i] + [ast.If(test=st.test, body=st.body, orelse=rest)]
+        return body
+
+    def generic_visit(self, node):
+        super().generic_visit(node)
+        if isinstance(node, (ast.FunctionDef, ast.AsyncFunctionDef)):
+            node.body = self._fix(node.body)
+        return node
+
+
+class ArgTemps(ast.NodeTransformer):
+    """`name = f(g(x))` -> `arg_tmp_N = g(x); name = f(arg_tmp_N)` for a call whose single positional argument is a call"""
+
+    def __init__(self):
+        self.n = 0
+
+    def _fix(self, body):
+        out = []
+        for st in body:
+            if isinstance(st, ast.Assign) and isinstance(st.value, ast.Call) and len(st.value.args) == 1 and not st.value.keywords and isinstance(st.value.args[0], ast.Call) and isinstance(st.value.func, (ast.Name, ast.Attribute)) and not any(isinstance(x, (ast.Lambda, ast.NamedExpr, ast.Await, ast.Yield)) for x in ast.walk(st.value)) and (isinstance(st.value.func, ast.Name) or isinstance(st.value.func.value, ast.Name)):
+                self.n += 1
+                t = f"arg_tmp_{self.n}"
+                out.append(ast.Assign(targets=[ast.Name(id=t, ctx=ast.Store())], value=st.value.args[0], lineno=st.lineno))
+                st.value.args[0] = ast.Name(id=t, ctx=ast.Load())
+            out.append(st)
+        return out
+
+    def generic_visit(self, node):
+        super().generic_visit(node)
+        if isinstance(node, (ast.FunctionDef, ast.AsyncFunctionDef)):
+            for holder in ast.walk(node):
+                for fld in ("body", "orelse", "finalbody"):
+                    v = getattr(holder, fld, None)
+                    if isinstance(v, list) and v and isinstance(v[0], ast.stmt) and not isinstance(holder, ast.ClassDef):
+                        setattr(holder, fld, self._fix(v))
+        return node
 
 
 def transform(src: str, which: str) -> str:
@@ -122,6 +174,12 @@ def transform(src: str, which: str) -> str:
         tree = FlipIf().visit(tree)
     if which in ("rettemp", "all"):
         tree = RetTemp().visit(tree)
+    if which == "splitand":
+        tree = SplitAnd().visit(tree)
+    if which == "elseafter":
+        tree = ElseAfterReturn().visit(tree)
+    if which == "argtemps":
+        tree = ArgTemps().visit(tree)
     ast.fix_missing_locations(tree)
     out = ast.unparse(tree) + "\n"
     compile(out, "<twin>", "exec")
